@@ -636,6 +636,103 @@ func c12ServerFraming(w *core.W, j int) {
 	w.Count("hook_hits_readTCP", ctl.Hits()["readTCP.deadlineSet"])
 }
 
+// c12AsyncDatagram: a datagram handler may keep its ResponseWriter and answer later from a goroutine of
+// its own. Client A's query is held; meanwhile other clients, each on a socket of its own, are served;
+// then A's answer is released. It reaches A - not one of the others - and the others got their own.
+func c12AsyncDatagram(w *core.W, j int) {
+	type held struct {
+		rw  dns.ResponseWriter
+		req *dns.Msg
+	}
+	heldCh := make(chan held, 8)
+	h := dns.HandlerFunc(func(rw dns.ResponseWriter, req *dns.Msg) {
+		if len(req.Question) == 1 && strings.HasPrefix(req.Question[0].Name, "slow") {
+			heldCh <- held{rw, req} // answered later, from another goroutine
+			return
+		}
+		r := new(dns.Msg)
+		r.SetReply(req)
+		rw.WriteMsg(r)
+	})
+	started := make(chan struct{})
+	srv := &dns.Server{Net: "udp", Addr: "127.0.0.1:0", Handler: h, ReadTimeout: time.Hour, NotifyStartedFunc: func() { close(started) }}
+	serveErr := make(chan error, 1)
+	go func() { serveErr <- srv.ListenAndServe() }()
+	select {
+	case <-started:
+	case err := <-serveErr:
+		w.Inconclusive("async-datagram-listen:" + fmt.Sprint(err))
+		return
+	case <-time.After(c12Watch):
+		w.Inconclusive("async-datagram-server-did-not-start")
+		return
+	}
+	defer func() { srv.Shutdown(); <-serveErr }()
+	addr := srv.PacketConn.LocalAddr().String()
+	for round := 0; round < 4; round++ {
+		a, err := dns.DialTimeout("udp", addr, 5*time.Second)
+		if err != nil {
+			w.Inconclusive("async-datagram-dial")
+			return
+		}
+		qa := new(dns.Msg)
+		qa.SetQuestion(fmt.Sprintf("slow%d-%d.example.", j, round), dns.TypeA)
+		qa.Id = uint16(0x100 + j*16 + round)
+		a.SetWriteDeadline(time.Now().Add(5 * time.Second))
+		if err := a.WriteMsg(qa); err != nil {
+			a.Close()
+			continue
+		}
+		var hd held
+		select {
+		case hd = <-heldCh:
+		case <-time.After(c12Watch):
+			a.Close()
+			w.Inconclusive("async-datagram-held-query-not-seen")
+			return
+		}
+		// the others, each from a socket of its own
+		nOthers := 2 + (j+round)%8
+		for b := 0; b < nOthers; b++ {
+			qb := new(dns.Msg)
+			qb.SetQuestion(fmt.Sprintf("other%d-%d-%d.example.", j, round, b), dns.TypeA)
+			qb.Id = uint16(0x4000 + j*64 + round*16 + b)
+			rb, _, err := (&dns.Client{Net: "udp", Timeout: 10 * time.Second}).Exchange(qb, addr)
+			w.Eval(1)
+			if err != nil {
+				w.Count("async_datagram_other_exchange_lost", 1) // datagrams may be lost; not judged
+				continue
+			}
+			if rb.Id != qb.Id || len(rb.Question) != 1 || !strings.EqualFold(rb.Question[0].Name, qb.Question[0].Name) {
+				w.Violation("C12/datagram-late-reply-went-elsewhere", fmt.Sprintf("round %d: client %d asked %s (id %d) and was handed a reply to %v (id %d) while another client's query was being held", round, b, qb.Question[0].Name, qb.Id, rb.Question, rb.Id), nil)
+			}
+		}
+		// now the held answer
+		ra := new(dns.Msg)
+		ra.SetReply(hd.req)
+		done := make(chan error, 1)
+		go func() { done <- hd.rw.WriteMsg(ra) }()
+		select {
+		case <-done:
+		case <-time.After(c12Watch):
+		}
+		a.SetReadDeadline(time.Now().Add(10 * time.Second))
+		got, rerr := a.ReadMsg()
+		a.Close()
+		w.Eval(1)
+		w.Count("async_datagram_rounds", 1)
+		if rerr != nil {
+			w.Violation("C12/datagram-late-reply-lost", fmt.Sprintf("round %d: the reply a handler wrote from a goroutine of its own, after %d other clients had been served, did not reach the client that asked (%v)", round, nOthers, rerr), map[string]any{"query": qa.Question[0].Name})
+			return
+		}
+		if got.Id != qa.Id || len(got.Question) != 1 || got.Question[0].Name != qa.Question[0].Name {
+			w.Violation("C12/datagram-late-reply-went-elsewhere", fmt.Sprintf("round %d: the client that asked %s (id %d) received a reply to %v (id %d)", round, qa.Question[0].Name, qa.Id, got.Question, got.Id), nil)
+			return
+		}
+	}
+	w.NontrivialStr("async-datagram", fmt.Sprint(j))
+}
+
 // c12ClientDatagramSizes: a datagram reply of exactly the size the client said it takes - by an OPT record
 // in the query, by Client.UDPSize, by Conn.UDPSize, or by saying nothing (512) - reaches the caller intact,
 // and so does the one that is an octet shorter; the exchange that follows on the same Conn is not disturbed.
@@ -1749,6 +1846,7 @@ func init() {
 		section{"async-handlers", tiered(30, 600), c12Async},
 		section{"server-datagram-sizes", tiered(6, 100), c12ServerDatagramSizes},
 		section{"client-datagram-sizes", tiered(24, 600), c12ClientDatagramSizes},
+		section{"async-datagram-handlers", tiered(6, 120), c12AsyncDatagram},
 	)
 	core.Register(&core.Monitor{
 		ID: "C12", Level: "fault_enumeration", Plan: plan, Run: run, Race: true, Terminates: true, MaxParallel: 8,
